@@ -180,6 +180,25 @@ def run(ctx: Context, rep) -> None:
     check_formats(ctx, rep)
     from sa.rules import shared
     shared.check_exit_propagates(ctx, rep, "C12.exit", modules=(C.ITER_MOD, ), floor=1)
+    # the three restrictions compose in the documented order, for every
+    # combination of options: predicate filter, then first-k, then the
+    # per-metadata limit, applied to the walk of the requested split
+    from sa.rules.c03 import selection_stages, selection_terms
+    rep.rule(
+        "C12.stages",
+        "for each of the 8 combinations of {shard_filter, shards, "
+        "custom_metadata_type_limit} the selection routine returns "
+        "paths(limit?(first-k?(filter?(walk(split))))) - exactly the stages "
+        "whose option is given, in this order (collection algebra)")
+    sel_fn = ctx.fn(C.SHARD_PATHS)
+    for key, t in sorted(selection_terms(ctx).items()):
+        want = ["walk"] + [n for n, on in zip(("filter", "first-k", "limit"),
+                                               key) if on] + ["paths"]
+        got = selection_stages(t)
+        rep.ob("C12.stages", got == want, loc=sel_fn.loc(),
+               where=sel_fn.qualname,
+               construct=f"options {key}: stages {got}",
+               message=f"expected stages {want}", sample=False)
 
 
 
@@ -495,6 +514,14 @@ def check_formats(ctx: Context, rep) -> None:
 
 
 SELFTESTS = [
+    dict(rule="C12.stages", name="first-k-after-limit", expect="fire",
+         path="src/sedpack/io/dataset_iteration.py",
+         edits=[dict(path="src/sedpack/io/dataset_iteration.py",
+                     old="        # Truncate the shard list\n        if shards:\n            shards_list = shards_list[:shards]\n\n",
+                     new=""),
+                dict(path="src/sedpack/io/dataset_iteration.py",
+                     old="        # Full shard file paths.\n",
+                     new="        # Truncate the shard list\n        if shards:\n            shards_list = shards_list[:shards]\n\n        # Full shard file paths.\n")]),
     dict(rule="C12.forward", name="drop-limit-in-tfdataset", expect="fire",
          path="src/sedpack/io/dataset_iteration.py",
          old="                    shards=shards,\n                    custom_metadata_type_limit=custom_metadata_type_limit,\n                    shard_filter=shard_filter,\n                    repeat=repeat,\n                    file_parallelism=file_parallelism or 1,",
